@@ -45,6 +45,14 @@ CHECKS["C06"] = dict(
    text="(a) Component harness: real ExecutionState producers against the real consumer with API call k failing (three error classes), producers keep issuing calls, all schedules within 2 (quick) / 3 (thorough) deviations plus line-level preemption in state.py: no call after the failure, every blocked and later synchronous caller raises BackgroundThreadError carrying the failure, nobody blocked at the horizon. (b) Whole handler: 14 program shapes (incl. parallel/map with running, parked and timer-resubmitted branches) with every checkpoint call failing with each of four error classes under three policies (+1 deviation): the invocation ends, raises or returns FAILED per classification, never SUCCEEDED/PENDING, makes no further API call and delivers no unrecorded outcome.",
    note=SIM_NOTE + " Classification table taken from the property text and the SDK's tested behaviour: 4xx other than 429/invalid-token => raise; 5xx, 429, invalid token => FAILED.",
    technique=SIM_TECH + "; plus component-level stateless model checking of the checkpoint pipeline", design="6/C06", engine="vsched+durable-sim")
+CHECKS["C15"] = dict(
+   text="Bounded exhaustive enumeration of the default serializer's type grammar: every list/tuple/dict/BatchResult of size <=2 over a 47-value adversarial leaf alphabet at depth 1, depth 2 over reduced and single-wrapped full alphabets (depth 3 in thorough), every envelope look-alike for 17 tags, and a rejection alphabet; each value goes through serialize/deserialize and ExtendedTypeSerDes and is compared with typed, NaN- and signed-zero-aware deep equality: equal or rejected, never altered.",
+   note="Trusted: the typed equality (vcheck/props/c15.py same()). Subclass instances and bytearray/memoryview are outside the stated domain. ~6e5 values quick.",
+   technique="bounded exhaustive input enumeration (small-scope) against an identity reference", design="6/C15", engine="enum")
+CHECKS["C20"] = dict(
+   text="Bounded exhaustive enumeration of every wire model class (ErrorObject, all Details and Options, OperationUpdate, Operation, invocation input/output) over {absent, empty, value} per optional field and every enum member, pairwise across details classes, through both dict and JSON codecs, compared field-wise; every create_* factory's wire form is checked for the options passed; to/from_unix_millis over dense millisecond windows with sub-millisecond probes.",
+   note="Trusted: the flattening comparison (drops None/''/empty sub-objects, millisecond resolution) which encodes the wire form's documented omissions. ~1.1e6 objects/timestamps quick.",
+   technique="bounded exhaustive input enumeration (small-scope) against an identity reference", design="6/C20", engine="enum")
 NOT_YET = {}
 
 def main():
@@ -76,6 +84,7 @@ def main():
                   "source_commits": [], "add_only": True},
         "engines": [
             {"name": "vsched", "path": "/verif/vcheck/vsched", "serves_properties": sorted(CHECKS), "kind_free_text": "controlled scheduler + virtual time for the real SDK threads; deviation-bounded exhaustive DFS"},
+            {"name": "enum", "path": "/verif/vcheck/props", "serves_properties": ["C15", "C20"], "kind_free_text": "bounded-exhaustive value enumeration for the sequential codecs"},
             {"name": "durable-sim", "path": "/verif/vcheck/sim", "serves_properties": sorted(k for k, v in CHECKS.items() if "sim" in v.get("engine", "")), "kind_free_text": "backend reference model behind the boto3 seam + multi-invocation driver with crash/fault/pagination/delivery choices + workflow DSL"},
         ],
         "checks": checks,
